@@ -2,7 +2,7 @@
 entry point takes no timeout settings, so it is outside C10's quantifier), then five `bat_*` rule overrides."""
 
 FAMILY = dict(
-    name="battalion", nargs=2, gen="battalion", retries=1, port=0, decode_property="C07", entry="battalion",
+    send_units=3, name="battalion", nargs=2, gen="battalion", retries=1, port=0, decode_property="C07", entry="battalion",
     describe=("Battalion 1944: Valve A2S with app 489940 (id carried in the GameID), every subset of the six bat_* rules, "
               "numeric overrides 0-255 / with leading zeros / out of range / non-numeric (NOTWF), password Y/N/other, 0-40 players, "
               "0-3 challenge rounds, single / split transports, foreign app ids (BadGame), port given / defaulted (battalion_dp)"),
